@@ -957,6 +957,13 @@ func (ctx Ctx) binExpr(e *ast.BinaryExpr) coq.Expr {
 		ok = true
 	}
 	if ok {
+		switch e.Op {
+		case token.LSS, token.GTR, token.LEQ, token.GEQ:
+			if isString(ctx.typeOf(e.X).Underlying()) {
+				// GooseLang's comparison operators are only defined on integers
+				ctx.unsupported(e, "ordered comparison of strings")
+			}
+		}
 		expr := coq.BinaryExpr{
 			X:  ctx.expr(e.X),
 			Op: op,
